@@ -71,6 +71,7 @@ def parse_case(line):
 
 class C16(PropertyCheck):
     pid = "C16"
+    source_tables = ["ARC_LABELS", "ARC_HEADER_PAD", "BIN_HEADER"]   # tables / constants regenerated from /repo's source (gen/srctables.py)
     release_too = True
     rule = ("streams: images from a Python arc writer on top of a Python bin-archive writer with layout knobs (padded 0x60 header or "
             "not, record order != body order, unaligned / empty / zero-filled bodies with gaps, bodies before and AFTER the tables, a body ending "
